@@ -617,3 +617,67 @@ class StateWriteEntities(FnCheck):
 class RemovalTakesEveryState(_c02.RmDescriptorsAndStates):
     id = 'C03.descriptor_removal_removes_every_state_of_the_descriptor'
     prop = 'C03'
+
+
+# ---------------------------------------------------------------------------------------------------------------
+# descriptor transaction API: a call that is rejected leaves the pending updates of the transaction as they were
+@register
+class AddDescriptorAllOrNothing(_c02._DescrTxBase):
+    id = 'C03.add_descriptor'
+    prop = 'C03'
+    target = f'{_c02.TR}:DescriptorTransaction.add_descriptor'
+    field_types = {'DescriptorVersion': 'int'}
+    optional_fields = ('source_mds',)
+    doc = ('DescriptorTransaction.add_descriptor(descriptor, state): a call that is rejected - handle already in the '
+           'transaction, handle already in the MDIB, a state that belongs to another descriptor, a state the transaction '
+           'cannot take - leaves the pending descriptor updates exactly as they were (an application that handles the '
+           'exception and goes on commits nothing of the rejected call); an accepted call queues exactly this descriptor '
+           'as new (old = None) and touches no table')
+    replay_fn = 'C03:add_descriptor_rejected'
+
+    def concretize(self, vc, model):
+        return {}
+
+    def setup(self, b):
+        st = b.st
+        o = self.mk(b)
+        self.new = b.obj('new_descriptor', Handle=self.handle, DescriptorVersion=b.int('new_version'),
+                         source_mds=b.any('source_mds', maybe_none=True))
+        self.exists = b.bool('handle_exists_in_mdib')
+        self.state_given = b.bool('state_given')
+        self.state_handle = b.str('state.DescriptorHandle')
+        self.state = b.obj('state_container', DescriptorHandle=self.state_handle)
+        b.distinct(o, self.new, self.state, self.upd, self.stored)
+        state_v = vany(z3.If(self.state_given.e, Val.ref(self.state.e), Val.none), maybe_none=True, path='state_container')
+        st.ghost['c:table_ops'] = ()
+        return o, [self.new], {'adjust_descriptor_version': b.bool('adjust'), 'state_container': state_v}
+
+    def hooks(self, ex):
+        ex.ctx.membership['self._mdib.descriptions.handle'] = lambda st, item: z3.And(self.exists.e, item == Val.str(self.handle.e)) \
+            if False else self.exists.e
+        return None
+
+    def callees(self, ex):
+        def add_state(ex_, st, args, kwargs):
+            # contract of DescriptorTransaction.add_state: queues the state or rejects it without any change
+            st.ghost['c:add_state'] = st.box(args[0])
+            return [(st.fork(), Raise(ex_.mk_exc('ValueError', 'add_state rejected'))),
+                    (st.fork(), Raise(ex_.mk_exc('ApiUsageError', 'add_state rejected'))), (st, NONE)]
+        return {f'{_c02.TR}:TransactionItem': self.item_summary(), 'TransactionItem': self.item_summary(),
+                '*.set_version': Pure(lambda e, s, a, k: NONE, name='descriptions.set_version(descriptor) (C02.set_version)'),
+                '*.set_source_mds': Pure(lambda e, s, a, k: NONE, name='xtra.set_source_mds(descriptor)'),
+                f'{_c02.TR}:DescriptorTransaction.add_state': Pure(add_state, name='add_state (queues or rejects without change)')}
+
+    def post(self, ex, st0, st, outcome, b):
+        key = Val.str(self.handle.e)
+        was = z3.Select(z3.Select(st0.get_arr('DK'), self.upd.e), key)
+        if outcome[0] == 'exc':
+            ex.oblige(st, 'rejected_call_leaves_the_pending_updates_as_they_were', self.unchanged_queue(st0, st),
+                      info={'exc': repr(outcome[1]), 'witness_key': 'rejected-add-descriptor-stays-queued'})
+            return
+        has, old, new = self.queued(st)
+        ex.oblige(st, 'accepted_only_for_a_new_handle', z3.And(z3.Not(was), z3.Not(self.exists.e)))
+        ex.oblige(st, 'queued_as_new_descriptor', z3.And(has, Val.is_none(old), new == Val.ref(self.new.e)))
+        ex.oblige(st, 'matching_state_is_added', z3.Implies(self.state_given.e, z3.And(
+            self.state_handle.e == self.handle.e,
+            st.ghost['c:add_state'] == Val.ref(self.state.e) if 'c:add_state' in st.ghost else z3.BoolVal(False))))
